@@ -54,14 +54,28 @@ def run(ck):
     ck.expect_count('SIB-zip (AnnotateResidues.run_system)', anchored, 1)
     ck.extra['zip_sites_with_shared_source'] = total
 
-    # the molecule operand is filtered by the selector
-    loops = [n for n in walk_local(rs) if isinstance(n, ast.For) and isinstance(n.iter, ast.Call) and call_name(n.iter) == 'zip']
-    ck.need(len(loops) == 1, 'AnnotateResidues.run_system: zip loop over molecules and lengths not found')
+    # the loop that hands each selected molecule its slice (whatever its form)
+    acalls = [c for c in walk_local(rs) if isinstance(c, ast.Call) and call_name(c) == 'annotate_residues_from_sequence']
+    loops = [l for c in acalls for l in [mod.enclosing(c, ast.For)] if l is not None]
+    ck.ob('PROV-selected-only', mod.loc(rs), len(acalls) == 1 and len(loops) == 1, 'run_system annotates molecules at one site, inside a loop over molecules ({} call(s))'.format(len(acalls)),
+          key='PROV-selected-only|site')
+    if len(acalls) != 1 or len(loops) != 1:
+        return
     loop = loops[0]
-    src, filt = comp_signature(rs, loop.iter.args[0])
-    ck.ob('PROV-selected-only', mod.loc(loop), src == 'system.molecules' and any('molecule_selector' in f for f in filt),
-          'molecules annotated by run_system come from system.molecules filtered by the molecule selector (source {}, filters {})'.format(src, sorted(filt)),
-          key='PROV-selected-only|run_system')
+    acall = acalls[0]
+    ast_stmt = mod.stmt_of(acall)
+    rel = stmts_with_env(rs, lambda s: s is ast_stmt, stmts=loop.body)
+    c_call = rel[0][1]
+    molv = u(acall.args[0])
+    it = loop.iter
+    first = it.args[0] if isinstance(it, ast.Call) and call_name(it) == 'zip' else it
+    src, filt = comp_signature(rs, first)
+    by_filter = src == 'system.molecules' and any('molecule_selector' in f for f in filt) and flow.valid(c_call)
+    sel_atoms = [k for k in flow.atoms_of(c_call) if k[0] == 'truth' and k[1] == 'self.molecule_selector({})'.format(molv)]
+    by_test = src == 'system.molecules' and not filt and len(sel_atoms) == 1 and flow.equivalent(c_call, ('atom', sel_atoms[0]))[0]
+    ck.ob('PROV-selected-only', mod.loc(loop), by_filter or by_test,
+          'molecules annotated by run_system are exactly the molecules of system.molecules accepted by the molecule selector (source {}, filters {}, call under {})'.format(
+              src, sorted(filt), flow.show(c_call)[:60]), key='PROV-selected-only|run_system')
     gate = stmts_with_env(rm, lambda s: isinstance(s, ast.Expr) and call_name(s.value) == 'annotate_residues_from_sequence')
     ck.ob('PROV-selected-only', mod.loc(rm), len(gate) == 1 and any('molecule_selector' in ' '.join(map(str, a)) for a in flow.atoms_of(gate[0][1]))
           and flow.implies(gate[0][1], ('atom', ('truth', 'self.molecule_selector(molecule)')))[0],
@@ -99,24 +113,38 @@ def run(ck):
     ck.ob('PROV-repetition', mod.loc(rs), ok_one, 'a one-element sequence is repeated for every residue (multiplier sum of lengths) only when its length is 1',
           key='PROV-repetition|one-element')
     ck.ob('PROV-repetition', mod.loc(rs), ok_plain, 'otherwise the sequence is used as given', key='PROV-repetition|plain')
-    # slicing per molecule
-    nres = loop.target.elts[1].id if isinstance(loop.target, ast.Tuple) and len(loop.target.elts) == 2 else None
-    calls = [s for s in loop.body if isinstance(s, ast.Expr) and call_name(s.value) == 'annotate_residues_from_sequence']
-    ck.need(len(calls) == 1 and nres, 'AnnotateResidues.run_system: annotate call in the zip loop not found')
-    call = calls[0].value
-    sl = [a for a in call.args if isinstance(a, ast.Subscript) and isinstance(a.slice, ast.Slice)]
+    # slicing per molecule: the offsets advance exactly when a molecule is annotated, by its number of residues
+    sl = [a for a in acall.args if isinstance(a, ast.Subscript) and isinstance(a.slice, ast.Slice)]
     ok_slice = False
     detail = 'slice not found'
-    if sl:
+    if sl and sl[0].slice.lower is not None and sl[0].slice.upper is not None:
         lo, hi = u(sl[0].slice.lower), u(sl[0].slice.upper)
-        incs = {u(s.target): (i, s) for i, s in enumerate(loop.body) if isinstance(s, ast.AugAssign) and isinstance(s.op, ast.Add) and u(s.value) == nres}
-        ci = loop.body.index(calls[0])
+        upd = stmts_with_env(rs, lambda s_: isinstance(s_, (ast.Assign, ast.AugAssign)) and
+                             any(u(t) in (lo, hi) for t in (s_.targets if isinstance(s_, ast.Assign) else [s_.target])), stmts=loop.body)
+        same_cond = bool(upd) and all(flow.equivalent(c, c_call)[0] for s_, c, e in upd)
         init = {n: try_fold(single_def_outside(rs, n, loop)) for n in (lo, hi)}
-        ok_slice = (lo in incs and hi in incs and incs[hi][0] < ci < incs[lo][0] and len(incs) == 2
-                    and init[lo] == 0 and init[hi] == 0 and u(call.args[0]) == u(loop.target.elts[0])
-                    and all(unconditional_in(rs, loop.body, s) for s in (incs[lo][1], incs[hi][1], calls[0])))
-        detail = 'slice [{}:{}], upper advanced before and lower after the call by `{}`, both start at 0'.format(lo, hi, nres)
-    ck.ob('PROV-slice', mod.loc(call), ok_slice, 'each selected molecule receives the slice of its own residues ({})'.format(detail), key='PROV-slice|run_system')
+        # amount: the number of residues of that molecule
+        nres_names = set()
+        if isinstance(loop.target, ast.Tuple) and isinstance(it, ast.Call) and call_name(it) == 'zip' and len(it.args) == 2:
+            s2, f2 = comp_signature(rs, it.args[1])
+            d2 = single_def(rs, u(it.args[1])) if isinstance(it.args[1], ast.Name) else it.args[1]
+            if s2 == src and f2 == filt and d2 is not None and 'len(list(' in u(d2) and '.iter_residues()))' in u(d2):
+                nres_names.add(u(loop.target.elts[1]))
+        amounts_ok = True
+        order_ok = True
+        pos = {id(s_): i for i, s_ in enumerate(loop.body)}
+        for s_, c, e in upd:
+            val = u(s_.value)
+            good = any(n in val for n in nres_names) or 'len(list({}.iter_residues()))'.format(molv) in val or val in (lo, hi)
+            amounts_ok = amounts_ok and good
+        hi_upd = [s_ for s_, c, e in upd if u(s_.targets[0] if isinstance(s_, ast.Assign) else s_.target) == hi]
+        lo_upd = [s_ for s_, c, e in upd if u(s_.targets[0] if isinstance(s_, ast.Assign) else s_.target) == lo]
+        order_ok = len(hi_upd) == 1 and len(lo_upd) == 1 and hi_upd[0].lineno < ast_stmt.lineno < lo_upd[0].lineno
+        ok_slice = same_cond and amounts_ok and order_ok and init.get(lo) == 0
+        detail = 'slice [{}:{}]; offsets updated under the same condition as the annotation: {}; by the residue count of that molecule: {}; upper before / lower after the call: {}'.format(
+            lo, hi, same_cond, amounts_ok, order_ok)
+    ck.ob('PROV-slice', mod.loc(acall), ok_slice, 'each annotated molecule receives the slice of its own residues, and molecules that are not annotated consume nothing ({})'.format(detail),
+          key='PROV-slice|run_system')
 
     # ---- MPT: whole residue
     stores = [s for s in walk_local(ann) if isinstance(s, ast.Assign) and isinstance(s.targets[0], ast.Subscript) and 'attribute' in u(s.targets[0])]
@@ -138,6 +166,22 @@ def run(ck):
     ir = mol.func('Molecule.iter_residues')
     ck.ob('MPT-whole-residue', mol.loc(ir), 'sorted(residue_graph.nodes)' in u(ir) and "['graph'].nodes" in u(ir),
           'iter_residues yields the node tuples of the residues in sorted residue-graph order', key='MPT-whole-residue|iter_residues')
+    body = [s_ for s_ in ir.body if not (isinstance(s_, ast.Expr) and isinstance(s_.value, ast.Constant))]
+    stores = [n for n in ast.walk(ir) if isinstance(n, ast.Attribute) and isinstance(n.ctx, ast.Store)]
+    ck.ob('MPT-whole-residue', mol.loc(ir), len(body) == 2 and u(body[0]) == 'residue_graph = graph_utils.make_residue_graph(self)' and isinstance(body[1], ast.Return) and not stores,
+          'iter_residues recomputes the residues from the current node attributes on every call (no cache that residue edits could leave stale)', key='MPT-whole-residue|no-cache')
+    # every consumer of "the k-th residue" uses the same residue order
+    users = {}
+    for name in ('annotate_residues_from_sequence', 'sequence_from_residues'):
+        f = mod.func(name)
+        users[name] = [u(c) for c in walk_local(f) if isinstance(c, ast.Call) and call_attr(c) in ('iter_residues',) or
+                       (isinstance(c, ast.Call) and (call_name(c) or '').split('.')[-1] in ('collect_residues', 'make_residue_graph'))]
+    users['AnnotateResidues.run_system'] = [u(c) for c in walk_local(rs) if isinstance(c, ast.Call) and (call_attr(c) == 'iter_residues' or
+                                                                                                        (call_name(c) or '').split('.')[-1] in ('collect_residues', 'make_residue_graph'))]
+    ck.ob('SIB-residue-order', mod.loc(ann), all(v == ['molecule.iter_residues()'] for v in users.values()),
+          'counting, assigning and reading back per-residue values all enumerate residues through molecule.iter_residues(): {}'.format(users), key='SIB-residue-order')
+    from . import shared
+    shared.truthy_zero(ck, [DSSP])
 
     # ---- TAB: alphabet and translation table
     rd = mod.func('read_dssp2')
@@ -216,6 +260,14 @@ def run(ck):
         ok_rec = (isinstance(it, ast.Call) and call_name(it) == 'zip' and [u(a) for a in it.args] == ['wildcard_sequence', 'cg_sequence']
                   and u(g.elt) == "wildcard if wildcard != '.' else cg" and not g.generators[0].ifs)
     ck.ob('TAB-helix', mod.loc(conv), ok_rec, 'result takes the rewritten class where there is one and the table class elsewhere, position by position', key='TAB-helix|recombine')
+    wd = [v for v in assignments_to(conv, 'wildcard_sequence') if any(isinstance(n, ast.GeneratorExp) for n in ast.walk(v))]
+    ok_w = len(wd) == 1
+    if ok_w:
+        g = [n for n in ast.walk(wd[0]) if isinstance(n, ast.GeneratorExp)][0]
+        v = u(g.generators[0].target)
+        ok_w = u(g.generators[0].iter) == 'cg_sequence' and u(g.elt) == "'H' if {} == 'H' else '.'".format(v) and not g.generators[0].ifs
+    ck.ob('TAB-helix', mod.loc(conv), ok_w, 'the helix mask is taken from the table-translated sequence (everything the table calls H, the Martini helix classes 1/2/3 included)',
+          key='TAB-helix|mask-source')
     cg = single_def(conv, 'cg_sequence')
     ck.ob('TAB-helix', mod.loc(conv), cg is not None and 'SS_CG[' in u(cg) and 'for secstruct in sequence' in u(cg) and ' if ' not in u(cg),
           'every input class is translated through SS_CG, none skipped', key='TAB-helix|translate-all')
